@@ -1,7 +1,7 @@
 """Translate the `satisfied` methods of vakt's built-in rules into Lean (lean/Gen/Rules.lean).
 
 A small, purely syntactic Python -> Lean translator for the fragment those bodies are written in.  Every construct is
-mapped to one primitive of lean/Model/PyPrim.lean (cmpEq, cmpLt, cmpIn, notM, andM / orM, iteM, isinstanceM, callList,
+mapped to one primitive of lean/Model/PyPrim.lean (cmpEq, cmpLt, cmpIn, pyNot, pyAnd / pyOr, iteM, isinstanceM, callList,
 callSet, callBool, methLower, methIssubset, ...); statements are translated in continuation style (an `if` carries the
 rest of the block into both branches, an assignment binds a name for the rest, `return` ends the block, `raise` is an
 exception).  `self.<attr>` becomes a parameter `self_<attr>`, a property that returns a constant is inlined, module-level
@@ -18,11 +18,12 @@ import ast
 import os
 import sys
 
-MODULES = ['operator', 'list', 'logic', 'string']
+MODULES = ['operator', 'list', 'logic', 'string', 'inquiry']
 
 CMP = {ast.Eq: 'cmpEq', ast.NotEq: 'cmpNe', ast.Lt: 'cmpLt', ast.LtE: 'cmpLe', ast.Gt: 'cmpGt', ast.GtE: 'cmpGe',
        ast.In: 'cmpIn', ast.NotIn: 'cmpNotIn'}
-CALLS = {'list': 'callList', 'set': 'callSet', 'bool': 'callBool', 'callable': 'callCallable'}
+CALLS = {'list': 'callList', 'set': 'callSet', 'bool': 'callBool', 'callable': 'callCallable', 'len': 'callLen',
+         'all': 'callAll', 'any': 'callAny'}
 METHODS = {'lower': ('methLower', 0), 'startswith': ('methStartswith', 1), 'endswith': ('methEndswith', 1),
            'issubset': ('methIssubset', 1), 'intersection': ('methIntersection', 1), 'difference': ('methDifference', 1)}
 
@@ -68,6 +69,19 @@ class Translator:
             return self.constant(body[0].value.value)
         return None
 
+    def const_method(self, cname, mname):
+        """the constant a plain method without arguments returns (`def _field_name(self): return 'subject'`), or None"""
+        f = self.method_most_derived(cname, mname)
+        if f is None or len(f.args.args) != 1:
+            return None
+        body = [s for s in f.body if not (isinstance(s, ast.Expr) and isinstance(s.value, ast.Constant))]
+        if len(body) == 1 and isinstance(body[0], ast.Return) and isinstance(body[0].value, ast.Constant):
+            return body[0].value.value
+        return None
+
+    def method_most_derived(self, cname, mname):
+        return self.method(cname, mname)
+
     # ---- expressions
     def constant(self, v):
         if v is True:
@@ -95,12 +109,27 @@ class Translator:
                 return c
             self.attrs.add(e.attr)
             return '(pure self_%s)' % e.attr
+        if isinstance(e, ast.Compare) and len(e.ops) == 1 and isinstance(e.ops[0], (ast.Is, ast.IsNot)) and \
+                isinstance(e.comparators[0], ast.Constant) and e.comparators[0].value is None:
+            return '(%s %s)' % ('isNoneM' if isinstance(e.ops[0], ast.Is) else 'isNotNoneM', self.expr(e.left, env, cname))
+        if isinstance(e, ast.Subscript):
+            return '(subscriptM %s %s)' % (self.expr(e.value, env, cname), self.expr(e.slice, env, cname))
+        if isinstance(e, ast.Attribute) and isinstance(e.value, ast.Name) and e.value.id in env and e.value.id != 'self':
+            return '(attrM %s "%s")' % (env[e.value.id], e.attr)
+        if isinstance(e, ast.ListComp) and len(e.generators) == 1 and not e.generators[0].ifs and \
+                isinstance(e.generators[0].target, ast.Name):
+            g = e.generators[0]
+            self.fresh += 1
+            name = 'c%d_%s' % (self.fresh, g.target.id)
+            env2 = dict(env)
+            env2[g.target.id] = '(pure %s)' % name
+            return '(listCompM %s fun %s => %s)' % (self.expr(g.iter, env, cname), name, self.expr(e.elt, env2, cname))
         if isinstance(e, ast.Compare) and len(e.ops) == 1 and type(e.ops[0]) in CMP:
             return '(%s %s %s)' % (CMP[type(e.ops[0])], self.expr(e.left, env, cname), self.expr(e.comparators[0], env, cname))
         if isinstance(e, ast.UnaryOp) and isinstance(e.op, ast.Not):
-            return '(notM %s)' % self.expr(e.operand, env, cname)
+            return '(pyNot %s)' % self.expr(e.operand, env, cname)
         if isinstance(e, ast.BoolOp):
-            op = 'andM' if isinstance(e.op, ast.And) else 'orM'
+            op = 'pyAnd' if isinstance(e.op, ast.And) else 'pyOr'
             out = self.expr(e.values[-1], env, cname)
             for v in reversed(e.values[:-1]):
                 out = '(%s %s (fun _ => %s))' % (op, self.expr(v, env, cname), out)
@@ -112,6 +141,17 @@ class Translator:
             if isinstance(f, ast.Name):
                 if f.id == 'isinstance' and len(e.args) == 2 and isinstance(e.args[1], ast.Name):
                     return '(isinstanceM %s "%s")' % (self.expr(e.args[0], env, cname), e.args[1].id)
+                if f.id == 'getattr' and len(e.args) == 2:
+                    name = None
+                    a1 = e.args[1]
+                    if isinstance(a1, ast.Constant) and isinstance(a1.value, str):
+                        name = a1.value
+                    elif isinstance(a1, ast.Call) and isinstance(a1.func, ast.Attribute) and not a1.args and \
+                            isinstance(a1.func.value, ast.Name) and a1.func.value.id == 'self':
+                        name = self.const_method(cname, a1.func.attr)
+                    if isinstance(name, str):
+                        return '(attrM %s "%s")' % (self.expr(e.args[0], env, cname), name)
+                    raise Untranslatable('getattr with a computed name')
                 if f.id in CALLS and len(e.args) == 1:
                     return '(%s %s)' % (CALLS[f.id], self.expr(e.args[0], env, cname))
                 if f.id in self.helpers:
@@ -119,6 +159,9 @@ class Translator:
                 if f.id in env and not e.args:
                     return '(callValue %s)' % env[f.id]
                 raise Untranslatable('call of %s' % f.id)
+            if isinstance(f, ast.Attribute) and f.attr == 'satisfied' and len(e.args) == 2:
+                return '(methSatisfied %s %s %s)' % (self.expr(f.value, env, cname), self.expr(e.args[0], env, cname),
+                                                    self.expr(e.args[1], env, cname))
             if isinstance(f, ast.Attribute) and f.attr in METHODS and len(e.args) == METHODS[f.attr][1]:
                 args = [self.expr(f.value, env, cname)] + [self.expr(a, env, cname) for a in e.args]
                 return '(%s %s)' % (METHODS[f.attr][0], ' '.join(args))
@@ -143,24 +186,38 @@ class Translator:
         return inner
 
     # ---- statements (continuation style)
-    def block(self, stmts, env, cname):
+    def block(self, stmts, env, cname, end='cNone'):
+        """`end`: what happens when the block is left at its end (the function: return None; a loop body: go on with the
+        next iteration)"""
         stmts = [s for s in stmts if not is_log_call(s) and not (isinstance(s, ast.Expr) and isinstance(s.value, ast.Constant))]
         if not stmts:
-            return 'cNone'                      # falling off the end of the function
+            return end
         s, rest = stmts[0], stmts[1:]
+        if isinstance(s, ast.Continue):
+            if end == 'cNone':
+                raise Untranslatable('continue outside a loop')
+            return end
+        if isinstance(s, ast.For) and isinstance(s.target, ast.Name) and not s.orelse:
+            self.fresh += 1
+            x, k = 'l%d_%s' % (self.fresh, s.target.id), 'k%d' % self.fresh
+            env2 = dict(env)
+            env2[s.target.id] = '(pure %s)' % x
+            body = self.block(s.body, env2, cname, end=k)
+            return '(pyFor %s (fun %s %s =>\n      %s)\n      %s)' % (self.expr(s.iter, env, cname), x, k, body,
+                                                                   self.block(rest, env, cname, end))
         if isinstance(s, ast.Return):
             return self.expr(s.value, env, cname) if s.value is not None else 'cNone'
         if isinstance(s, ast.Raise):
             return 'raiseM'
         if isinstance(s, ast.If):
-            return '(iteM %s\n      %s\n      %s)' % (self.expr(s.test, env, cname), self.block(s.body + rest, env, cname),
-                                                     self.block(s.orelse + rest, env, cname))
+            return '(iteM %s\n      %s\n      %s)' % (self.expr(s.test, env, cname), self.block(s.body + rest, env, cname, end),
+                                                     self.block(s.orelse + rest, env, cname, end))
         if isinstance(s, ast.Assign) and len(s.targets) == 1 and isinstance(s.targets[0], ast.Name):
             name = 'v_' + s.targets[0].id
             val = self.expr(s.value, env, cname)
             env2 = dict(env)
             env2[s.targets[0].id] = '(pure %s)' % name
-            return '(bindM %s fun %s =>\n      %s)' % (val, name, self.block(rest, env2, cname))
+            return '(bindM %s fun %s =>\n      %s)' % (val, name, self.block(rest, env2, cname, end))
         raise Untranslatable('statement ' + type(s).__name__)
 
     def rule(self, cname):
